@@ -5,6 +5,9 @@ _build_template_in_dir / process_var_map with an in-memory FS and an in-memory t
 Replay: the real function with real files, real jinja2, real patterns, from a working directory that
 is NOT the zettel dir.
 """
+import os as _os
+_os.environ["XH_NO_PATCH"] = "1"   # this process replays on the real code: never patch zorg here
+
 import importlib
 import importlib.util
 import os
